@@ -21,6 +21,15 @@ _WIP = "check not built yet in this session (design in DESIGN.md section 6); not
 NOT_APPLICABLE = {("C%02d" % i): _WIP for i in range(1, 21)}
 
 PROPS = {
+    "C15": {
+        "engine": "c15",
+        "technique": "Coq proof (invariant by induction over request histories, any hash function, map/LRU cache) + differential correspondence against the real APQ extension over exhaustive short and random long histories",
+        "level_text": "Theorems for every hash function H, every cache policy shipped (MapCache, LRU k) and every request history: a cached binding was sent earlier as text with exactly that hash and hashes to it; a hash-only request executes exactly such a text or is PersistedQueryNotFound; a mismatching request is rejected with the cache unchanged; no history rebinds a hash. The model is run against handler.Server+POST+AutomaticPersistedQuery on every check.",
+        "level_note": "Trusted: Coq kernel + vm_compute; harness; mapstructure/encoding/json decoding of the extension (classified by the harness's abstract request forms and checked by the correspondence); hashicorp LRU is modelled (recency list) and checked by the correspondence, not verified; crypto/sha256 is the instance of H (no collision-resistance assumption is used).",
+        "trusted": ["hash function is a Section variable (no assumption); harness instantiates it with crypto/sha256 on three texts",
+                    "LRU semantics (hashicorp/golang-lru v2) modelled as a recency list; MapCache as an unbounded list"],
+        "assumptions": ["query texts used by the harness are valid documents, so 'pipeline continues with text q' is observed as Exec seeing RawQuery = q"],
+    },
     "C14": {
         "engine": "c14",
         "technique": "Coq proof (induction over the selection tree; lia over explicit 64-bit wrap) + differential correspondence of the model against complexity.Calculate/safeAdd/ComplexityLimit",
